@@ -211,6 +211,32 @@ def frame_obligations(rep, modules=MODULES):
                     probs.append('line %d: write through an attribute of %s: %s' % (n.lineno, b, ast.unparse(tgt)[:50]))
                 rep.add_checked('%s.%s.frame.no_write_to_attribute_of_foreign_object' % (m, q), not probs, '; '.join(probs), 'ast',
                                 function='%s.%s' % (m, q), witness=probs or None)
+                if not q.split('.')[-1].startswith('_') or q.split('.')[-1].startswith('__'):
+                    # the public API does not change the objects it is handed (argument lists, Python lists given to makelist, ...):
+                    # a caller may hand the same object to several engines
+                    params = {a.arg for a in fn.args.args + fn.args.kwonlyargs} - {'self'}
+                    if fn.args.vararg:
+                        params.add(fn.args.vararg.arg)
+                    rebound = {n.id for n in core.walk_own(fn) if isinstance(n, ast.Name) and isinstance(n.ctx, ast.Store)}
+                    probs = []
+                    for n in core.walk_own(fn):
+                        tgt = None
+                        if isinstance(n, ast.Subscript) and isinstance(n.ctx, (ast.Store, ast.Del)):
+                            tgt = n.value
+                        elif isinstance(n, ast.Call) and isinstance(n.func, ast.Attribute) and n.func.attr in MUTATORS:
+                            tgt = n.func.value
+                        elif isinstance(n, ast.AugAssign) and isinstance(n.target, ast.Name):
+                            # xs += [..] on a parameter extends the caller's list in place
+                            if n.target.id in params and n.target.id not in (rebound - {n.target.id}):
+                                first_store = min([x.lineno for x in core.walk_own(fn) if isinstance(x, ast.Name) and x.id == n.target.id
+                                                   and isinstance(x.ctx, ast.Store) and not isinstance(x, ast.AugAssign)] or [10 ** 9])
+                                if first_store >= n.lineno:
+                                    probs.append('line %d: %s' % (n.lineno, ast.unparse(n)[:50]))
+                            continue
+                        if isinstance(tgt, ast.Name) and tgt.id in params and tgt.id not in rebound:
+                            probs.append('line %d: changes its argument %s in place: %s' % (n.lineno, tgt.id, ast.unparse(n)[:50]))
+                    rep.add_checked('%s.%s.frame.arguments_not_mutated' % (m, q), not probs, '; '.join(probs), 'ast',
+                                    function='%s.%s' % (m, q), witness=probs or None)
         # mutable module objects and mutable defaults are never mutated anywhere
         for nm in mutable_globals:
             probs = _mutations_of_name(mod, nm)
